@@ -116,6 +116,7 @@ def flow_table_starts_at_zero(ctx: Ctx, f):
 def run(ctx: Ctx):
     f = ctx.func("flow", "max_flow")
     ctx.step(flow_table_starts_at_zero, f)
+    ctx.assume("node labels are equal to themselves (x == x): a NaN label is never recognised as the sink by `node == sink`")
     bfs = ctx.func("flow", "max_flow.bfs")
     ctx.step(adjacency_symmetry, f, bfs, "C08-O1")
 
